@@ -25,14 +25,10 @@ func (e EmptySet) IsTrue() bool {
 }
 
 func (e EmptySet) Less(v Value) bool {
-	if e == v {
-		return false
-	}
-	switch v.(type) {
-	case Number, Tuple:
-		return false
-	}
-	return true
+	// Same rule as every other value: order by kind first. (Tuples used to be
+	// listed here as sorting before the empty set while Tuple.Less, going by
+	// kind, said the opposite: neither was less than the other.)
+	return e.Kind() < v.Kind()
 }
 
 func (e EmptySet) Negate() Value {
